@@ -1,6 +1,6 @@
 (* Property C10 -- what is declared non-reloadable is never rewritten.  Statements only. *)
 From Coq Require Import List String NArith ZArith Bool.
-From AM Require Import Rust.Ast Gen.Entry Gen.Anycache Ref.Load Ref.Sys Proofs.SysGrows Proofs.SysStatic Tie.Static.
+From AM Require Import Rust.Ast Gen.Entry Gen.Anycache Ref.Load Ref.Sys Proofs.SysGrows Proofs.SysStatic Tie.Static Gen.Flags Tie.Dirs.
 Import ListNotations.
 
 (* 1. The code: an entry is reloadable only if its type is hot-reloaded and the cache has a
@@ -46,3 +46,11 @@ Example C10_nonvacuous :
   cache_get (fst (run s [OWrite "a" "x" (CBytes [55%N]); ONotify [DFile "a" "x"] []; OHotReload [(TI, "a")]]))
     (TI, "a") = Some e.
 Proof. vm_compute. eexists. repeat split. Qed.
+
+(* wrappers (Arc, OnceInitCell, the Asset->Compound and Compound->Storable blanket impls) take the
+   flag of what they wrap, and the type descriptor stores the type's flag *)
+Theorem C10_flag_is_forwarded :
+  forwards Arc_HOT_RELOADED "T" = true /\ forwards Blanket_HOT_RELOADED "Self" = true /\
+  forwards Storable_HOT_RELOADED "T" = true /\ forwards OnceInit_HOT_RELOADED "U" = true /\
+  descriptor_wf Inner_of_asset = true /\ descriptor_wf Inner_of_storable = true.
+Proof. exact hot_reloaded_flag_is_forwarded. Qed.
